@@ -271,3 +271,17 @@ _ADD11 = {
 for _k, _v in _ADD11.items():
     if _k in META and _v.strip() not in META[_k]["text"]:
         META[_k]["text"] += _v
+
+# ---- additions of the twelfth wave (DESIGN.md §7.11) ----
+_ADD12 = {
+    "C01": " c01-e2e also sends extension methods (PATCH, PROPFIND, MKCOL, REPORT, PURGE) and a made-up method token on the fixed-protocol pairings.",
+    "C03": " Thorough tier: requests carrying a timeout header (global / per-try) with the value 0 towards an upstream that never answers must end within 80 s (the 60 s default is the longest candidate).",
+    "C08": " bolt / boltv2 header blocks are also written from the block's own grammar (-1 'null' lengths, empty and short strings, odd counts, dangling tails), so that two unusual fields meet in one block.",
+    "C12": " Cluster updates carry circuit-breaker thresholds (none / zeros / small values) while, half of the time, a unit of every resource of the live cluster is held; the limits the live cluster enforces are compared with the stored configuration after every step.",
+    "C13": " One upstream case in five (peers that must be refused) configures no ca_cert at all.",
+    "C18": " Half of the flow cases write every identifier twice in their SETTINGS frames (a decoy value first; the last value stands).",
+    "C20": " Use-flags next to a configured TLS block (cluster_manager_tls) are set at random; a quarter of the extend documents write their key names with JSON escapes.",
+}
+for _k, _v in _ADD12.items():
+    if _k in META and _v.strip() not in META[_k]["text"]:
+        META[_k]["text"] += _v
